@@ -1,4 +1,5 @@
 import Pyxv.Model.Rows
+import Pyxv.Model.Lexer
 import Pyxv.Generated.Tables
 /-!
 # Settings: settings sheet + convert() arguments ↦ the form header
@@ -70,6 +71,11 @@ inductive Err where
   | emptyId
   /-- root element name is not an XML tag -/
   | badName (name : Str)
+  /-- PYXFORM_REFERENCE_INVALID: a settings cell with a malformed `${…}` -/
+  | badRef
+  /-- `utils.validate_xml_document`: a name that is not an XML name, an undeclared prefix, an illegal
+      namespace declaration, or a character XML does not allow -/
+  | xmlInvalid
 deriving DecidableEq, Repr, Inhabited
 
 inductive Fail where
@@ -224,6 +230,26 @@ def needsLexer : SVal → Bool
   | .s v => v.length > 2 && isInfix (S "${") v
   | .d _ => false
 
+/-- verdict of `validate_pyxform_reference_syntax` on one cell (`Pyxv.Lexer.refSyntaxOk`, the token
+    loop of pyxform_reference.py).  `none`: outside the fragment — the lexer table is not the pinned
+    one, or the cell contains the empty reference `${}` (its treatment is C03's subject).
+    Values of `attribute::x` groups are dicts for `clean_text_values` and are never checked. -/
+def refVerdict : SVal → Option Bool
+  | .s v =>
+    if needsLexer (.s v) then
+      (if isInfix (S "${}") v then none else Pyxv.Lexer.refSyntaxOk v)
+    else some true
+  | .d _ => some true
+
+/-- `clean_text_values` on the settings row: first failing cell decides -/
+def refCheck : Dict → M Unit
+  | [] => .ok ()
+  | kv :: r =>
+    match refVerdict kv.2 with
+    | none => .error (.unsupported "lexer outside the pinned fragment")
+    | some false => .error (.err .badRef)
+    | some true => refCheck r
+
 /-- header row + row 0 of the settings sheet ↦ the cleaned `settings` dict -/
 def dealias (hdr : List Str) (row : List (Str × Str)) : M Dict :=
   let p := popIdString hdr row
@@ -234,8 +260,9 @@ def dealias (hdr : List Str) (row : List (Str × Str)) : M Dict :=
     match processRow ks p.2 [] with
     | .error e => .error e
     | .ok out =>
-      if out.any (fun kv => needsLexer kv.2) then .error (.unsupported "value goes through the lexer")
-      else .ok (cleanD out)
+      match refCheck out with
+      | .error e => .error e
+      | .ok _ => .ok (cleanD out)
 
 /-! ## root dict, `Survey` slots -/
 
@@ -431,13 +458,64 @@ def headerOf (st : Dict) (a : Args) : Header :=
     submission := submissionOf sv, bodyClass := sv.style, nsmap := nsmapOf sv,
     instanceID := !omits st, instanceName := instanceNameOf st }
 
+/-! ## `utils.validate_xml_document` on the header -/
+
+/-- XML 1.0 `Char` -/
+def xmlChar (c : Char) : Bool :=
+  let n := c.toNat
+  n == 9 || n == 10 || n == 13 || (0x20 ≤ n && n ≤ 0xD7FF) || (0xE000 ≤ n && n ≤ 0xFFFD) || 0x10000 ≤ n
+
+def xmlText (v : Str) : Bool := v.all xmlChar
+
+/-- prefix of a qualified name (`name.partition(":")`) -/
+def prefixOf (k : Str) : Option Str :=
+  if k.contains ':' then some (k.takeWhile (· != ':')) else none
+
+/-- prefixes declared by `xmlns:p` attributes -/
+def declaredBy (attrs : List (Str × Str)) : List Str :=
+  attrs.filterMap fun kv => if startsWith kv.1 (S "xmlns:") then some (kv.1.drop 6) else none
+
+/-- `_validate_xml_name` -/
+def xmlNameOk (declared : List Str) (k : Str) : Bool :=
+  Pyxv.Rows.isXmlTag k &&
+  (match prefixOf k with
+   | some p => p == S "xml" || p == S "xmlns" || declared.contains p
+   | none => true)
+
+/-- a legal `xmlns:p="uri"` -/
+def nsDeclOk (kv : Str × Str) : Bool :=
+  !startsWith kv.1 (S "xmlns:") || (!kv.2.isEmpty && kv.1.drop 6 != S "xml" && kv.1.drop 6 != S "xmlns")
+
+def attrsOk (declared : List Str) (attrs : List (Str × Str)) : Bool :=
+  attrs.all fun kv => xmlNameOk declared kv.1 && xmlText kv.2
+
+/-- the parts of `validate_xml_document` that the header decides (the survey part of the document is
+    kept valid by the generator) -/
+def Header.xmlOk (h : Header) : Bool :=
+  let d := declaredBy h.nsmap
+  h.nsmap.all nsDeclOk && attrsOk d h.nsmap && xmlText h.title &&
+  xmlNameOk d h.rootName && attrsOk d h.rootAttrs &&
+  (match h.submission with | some l => attrsOk d l | none => true) &&
+  (match h.bodyClass with | some c => xmlText c | none => true) &&
+  (match h.instanceName with | some c => xmlText c | none => true)
+
+/-- `${…}` inside `instance_name` is substituted by `insert_xpaths` (C03's subject), and an
+    `xmlns:p` among the root attributes changes the prefixes in scope: both outside the fragment -/
+def headerTricky (st : Dict) (h : Header) : Bool :=
+  (match aget (S "instance_name") st with
+   | some (.s v) => isInfix (S "${") v
+   | _ => false) ||
+  h.rootAttrs.any fun kv => startsWith kv.1 (S "xmlns:")
+
 /-- cleaned settings dict + arguments ↦ header (or the error the code raises) -/
 def header (st : Dict) (a : Args) : M Header :=
   if omits st && truthy (aget (S "public_key") st) then .error (.err .omitWithKey) else
   if (surveyOf (jsonRoot st a)).idString == S "None" then .error (.err .emptyId) else
   if !Pyxv.Rows.isXmlTag (surveyOf (jsonRoot st a)).name then
     .error (.err (.badName (surveyOf (jsonRoot st a)).name)) else
-  if nsTricky (surveyOf (jsonRoot st a)) then .error (.unsupported "namespace prefix `xmlns` or with a colon") else
+  if nsTricky (surveyOf (jsonRoot st a)) || headerTricky st (headerOf st a) then
+    .error (.unsupported "namespace prefix `xmlns` / with a colon, xmlns: root attribute, or ${} in instance_name") else
+  if !(headerOf st a).xmlOk then .error (.err .xmlInvalid) else
   .ok (headerOf st a)
 
 /-- the whole modelled path: settings header row + row 0 + arguments ↦ header.
